@@ -21,9 +21,9 @@
 //
 // Map order: both syncers range over Go maps while inserting into them, so their behaviour
 // depends on the runtime's map iteration order. The harness is built with the `maprange`
-// overlay profile (ovl/profiles/c05.txt) which makes every map range of data/trie iterate
+// overlay profile (ovl/profiles/c05.txt) which makes every map range of the two syncer files iterate
 // in sorted key order (keys inserted during a loop are not visited - a legal Go order), or,
-// with a chooser attached (thorough tier), in an order chosen by the explorer.
+// with a chooser attached (stage map-order), in an order chosen by the explorer.
 //
 // Environment = choice tree (mc.Explore): after every loop iteration the environment picks
 // what the peers deliver before the next iteration. Choice 0 = exactly the nodes requested
@@ -65,6 +65,7 @@ import (
 // Key alphabet of DESIGN 3.1 (see harness/trie): suffixes of the byte strings are prefixes
 // of the trie paths; value "v" for every key (C04 family), so equal leaves are shared
 // between paths (one hash needed at two places of the tree).
+var keysQuick = []string{"", "00", "01", "0100", "1100", "aa", "01aa", "02aa"} // the 8-key sub-alphabet of harness/trie
 var keysAll = []string{"", "00", "01", "10", "11", "0100", "0001", "1100", "aa", "01aa", "02aa", "01aaaa"}
 
 var (
@@ -884,11 +885,10 @@ func main() {
 
 		// ---- the enumerated space per tier
 		type stage struct {
-			name    string
-			minKeys int
-			maxKeys int
-			bound   int
-			cfgs    []config
+			name  string
+			set   string // which source tries: "<=3", "4q" (4 keys, all from keysQuick), "4r" (the other 4-key tries), "all"
+			bound int
+			cfgs  []config
 		}
 		base := func(sy int) config { return config{Syncer: sy, CacheCap: 64, HardCap: 100} }
 		smallCache := func(sy int) config { return config{Syncer: sy, CacheCap: 2, HardCap: 100} }
@@ -901,19 +901,43 @@ func main() {
 		var stages []stage
 		if c.Quick() {
 			stages = []stage{
-				{"base", 1, 4, 2, both(base)},
-				{"small-cache", 1, 4, 1, both(smallCache)},
-				{"hard-cap-1", 1, 4, 1, both(smallCap)},
-				{"map-order", 1, 4, 1, both(order)},
+				{"base", "<=3", 2, both(base)},
+				{"base", "4q", 2, both(base)},
+				{"base", "4r", 1, both(base)},
+				{"small-cache", "all", 1, both(smallCache)},
+				{"hard-cap-1", "all", 1, both(smallCap)},
+				{"map-order", "all", 1, both(order)},
 			}
 		} else {
 			stages = []stage{
-				{"base<=3keys", 1, 3, 3, both(base)},
-				{"base-4keys", 4, 4, 3, both(base)},
-				{"small-cache", 1, 4, 2, both(smallCache)},
-				{"hard-cap-1", 1, 4, 2, both(smallCap)},
-				{"map-order", 1, 4, 2, both(order)},
+				{"base", "<=3", 3, both(base)},
+				{"base", "4q", 3, both(base)},
+				{"base", "4r", 2, both(base)},
+				{"small-cache", "all", 2, both(smallCache)},
+				{"hard-cap-1", "all", 2, both(smallCap)},
+				{"map-order", "<=3", 2, both(order)},
+				{"map-order", "4q", 2, both(order)},
+				{"map-order", "4r", 1, both(order)},
 			}
+		}
+		inQuick := map[string]bool{}
+		for _, k := range keysQuick {
+			inQuick[k] = true
+		}
+		inSet := func(s *source, set string) bool {
+			q := true
+			for _, k := range s.Keys {
+				q = q && inQuick[k]
+			}
+			switch set {
+			case "<=3":
+				return len(s.Keys) <= 3
+			case "4q":
+				return len(s.Keys) == 4 && q
+			case "4r":
+				return len(s.Keys) == 4 && !q
+			}
+			return true
 		}
 		if v := c.Seed; v < 0 { // development aid: VERIF_SEED=-n restricts to stage n-1
 			stages = stages[-v-1 : -v]
@@ -987,7 +1011,7 @@ func main() {
 			}
 			var tasks []task
 			for _, s := range srcs {
-				if len(s.Keys) > st.maxKeys || len(s.Keys) < st.minKeys {
+				if !inSet(s, st.set) {
 					continue
 				}
 				for _, cfg := range st.cfgs {
@@ -998,7 +1022,7 @@ func main() {
 			before := c.Counter("executions")
 			mc.Par(len(tasks), func(i int) {
 				if c.Expired() {
-					c.Cap("deadline before stage " + st.name + " finished")
+					c.Cap("deadline before stage " + st.name + "[" + st.set + "] finished")
 					return
 				}
 				t := tasks[i]
@@ -1008,11 +1032,11 @@ func main() {
 					report(c, acc, t.s, t.cfg, ch, r)
 				})
 				acc.counts["executions"] += stt.Executions
-				acc.counts["executions_"+st.name] += stt.Executions
+				acc.counts[fmt.Sprintf("executions_%s_%dkeys_bound%d", st.name, len(t.s.Keys), st.bound)] += stt.Executions
 				acc.flush(c)
 			})
-			desc = append(desc, fmt.Sprintf("%s: %d tasks (tries of %d..%d keys x syncers), deviation bound %d, cfg %+v, %d executions, %.0fs",
-				st.name, len(tasks), st.minKeys, st.maxKeys, st.bound, st.cfgs[1], c.Counter("executions")-before, time.Since(t0).Seconds()))
+			desc = append(desc, fmt.Sprintf("%s[tries %s: %d tries x 2 syncers] bound %d: %d executions, %.0fs",
+				st.name, st.set, len(tasks)/2, st.bound, c.Counter("executions")-before, time.Since(t0).Seconds()))
 		}
 		c.Set("stages", desc)
 		if cfgOrder := vmap.Sites; len(cfgOrder) > 0 {
@@ -1028,11 +1052,11 @@ func main() {
 			c.Set("map_range_sites_deviated", dv)
 		}
 
-		c.Rule = "source tries = all non-empty subsets of <=4 keys of the 12-key alphabet (value \"v\" each); per (trie, syncer version 1|2, config) every delivery schedule within the deviation bound: after each iteration of the real StartSyncing loop the environment delivers, through the real interceptor path, either exactly the requested nodes (default) or one deviation: any proper subset (incl. nothing); one request answered by the node at the same position of a trie with the same keys and other values; one request answered by a non-canonical encoding (unknown proto field); one unrequested node of the source trie (early or repeated); all nodes of the other trie; a batch of 14 byte strings that are not valid nodes. Oracle only when StartSyncing returns nil. Non-trivial = execution with >=1 deviation that completed with nil, keyed by (trie, config, multiset of deviation kinds)."
+		c.Rule = "source tries = all 793 non-empty subsets of <=4 keys of the 12-key alphabet (value \"v\" each; sets: <=3 = 298 tries of <=3 keys, 4q = 70 tries of 4 keys from the 8-key sub-alphabet, 4r = the other 425 tries of 4 keys); per (trie, syncer version 1|2, config) every delivery schedule within the deviation bound of the stage (see bound_completed): after each iteration of the real StartSyncing loop the environment delivers, through the real interceptor path, either exactly the requested nodes (default) or one deviation: any proper subset (incl. nothing); one request answered by the node at the same position of a trie with the same keys and other values; one request answered by a non-canonical encoding (unknown proto field); one unrequested node of the source trie (early or repeated); all nodes of the other trie; the batch of byte strings that are not valid nodes (those the interceptor does not panic on; the panicking ones are classified once per trie at start-up); stage map-order: additionally any order of a map range (<=4 keys) inside the syncer as one deviation. Configs: base = LRU cache 64 / hard cap 100, small-cache = LRU cache 2, hard-cap-1 = MaxHardCapForMissingNodes 1. Oracle only when StartSyncing returns nil. Non-trivial = execution with >=1 deviation that completed with nil, keyed by (trie, config, multiset of deviation kinds)."
 		c.Bound = strings.Join(desc, " | ")
 		c.Assumptions = []string{
 			"one delivered byte string = one message (a one-element batch); a real multi-element batch is all-or-nothing, which is a delivery of the whole batch or of nothing",
-			"map iteration inside data/trie is pinned to sorted key order, keys inserted during a loop are not visited in that loop (maprange overlay); thorough stage map-order additionally explores every order of maps with <=4 keys as deviations",
+			"map ranges inside sync.go/doubleListSync.go iterate in sorted key order and keys inserted during a loop are not visited in that loop (maprange overlay; a legal Go order, the real runtime may also visit inserted keys); stage map-order explores every order of the keys present at loop start (maps with <=4 keys) as deviations",
 			"watchdog (TimeoutBetweenTrieNodesCommits) never fires: 1000 h on a logical clock; horizon 4 x nodes iterations, nothing asserted when reached",
 			"the intercepted-nodes cacher is storage/lrucache (capacity 64, or 2 in stage small-cache), not the production storageCacherAdapter",
 			"panics of NewInterceptedTrieNode/CheckValidity on malformed bytes are recovered and only counted (DESIGN section 0 side observation, outside the statement)",
